@@ -112,6 +112,12 @@ class Pool:
             if i % 2:
                 # a library-style main file: the chunk ends in a return statement (it is code like any other)
                 code = code + rng.choice((b'return vec\n', b'-- export\nreturn {v=1}\n', b'do return end\n', b'return'))
+            if i == 2:
+                # a 60 fps cart: picotool's .p8.png writer appends PICO-8's `_update60` compatibility line behind such code; the code's own
+                # last line and the start of that line (`end` / `if(`) occur earlier in this text, so the last block of the compressed
+                # stream reaches past the end of the code into the appended line
+                code = (b'function _update60()\n t+=1\n if(t>9) t=0\nend\nif(t==nil) t=0\n' + code +
+                        b'function _draw()\n cls()\n if(t>9) t=0\nend\n')
             if i in (0, 3):
                 # text of a .lua file that is not Lua code: a commented-out directive line and a long string holding one (the named
                 # file exists for the first, not for the second); a .lua source is Lua, its comments and strings are kept as they are
